@@ -242,14 +242,14 @@ def walkLeafS (L : List Nat) (id : Nat) (l : Leaf) : Block → Option (List Nat 
 
 /-- a fixed-count array: a counted loop over one element's walk, or (bytes) one field of that many bytes -/
 def walkFixedS (L : List Nat) (n : Nat) (byte : Bool) (elem : Block → Bool) : Block → Option (List Nat × List Nat × Block)
-  | .cons (.forc n' body) q => if n' == n && elem body then some (dropAll L (boundBl body), boundBl body, q) else Option.none
-  | .cons (.add n' _) q => if byte && n' == n then some (L, [], q) else Option.none
+  | .cons (.forc n' body) q => if !byte && n' == n && elem body then some (dropAll L (boundBl body), boundBl body, q) else Option.none
+  | .cons (.add n' e) q => if byte && n' == n && e == .na then some (L, [], q) else Option.none
   | _ => Option.none
 
 /-- an array counted by the kept variable `var` -/
 def walkVarS (L : List Nat) (var : Nat) (byte : Bool) (elem : Block → Bool) : Block → Option (List Nat × List Nat × Block)
-  | .cons (.forv w body) q => if w == var && L.contains var && elem body then some (dropAll L (boundBl body), boundBl body, q) else Option.none
-  | .cons (.addv w _) q => if byte && w == var && L.contains var then some (L, [], q) else Option.none
+  | .cons (.forv w body) q => if !byte && w == var && L.contains var && elem body then some (dropAll L (boundBl body), boundBl body, q) else Option.none
+  | .cons (.addv w e) q => if byte && w == var && L.contains var && e == .na then some (L, [], q) else Option.none
   | _ => Option.none
 
 def walkIfS (L : List Nat) (var : Nat) (ids : List Nat) (arms : Arms → Bool) : Block → Option (List Nat × List Nat × Block)
@@ -257,8 +257,8 @@ def walkIfS (L : List Nat) (var : Nat) (ids : List Nat) (arms : Arms → Bool) :
   | _ => Option.none
 
 def walkEndS (byte : Bool) (elem : Block → Bool) : Block → Option (List Nat × List Nat × Block)
-  | .cons (.whileNotEnd body) .nil => if elem body then some ([], boundBl body, .nil) else Option.none
-  | .cons (.addrest _) .nil => if byte then some ([], [], .nil) else Option.none
+  | .cons (.whileNotEnd body) .nil => if !byte && elem body then some ([], boundBl body, .nil) else Option.none
+  | .cons (.addrest e) .nil => if byte && e == .na then some ([], [], .nil) else Option.none
   | _ => Option.none
 
 def walkOptS (inner : Block → Bool) : Block → Option (List Nat × List Nat × Block)
@@ -419,14 +419,39 @@ theorem lookup_bind_ne (env : Env) (id : Nat) (val : Val) (v : Nat) (h : v ≠ i
     simp [Env.bind, List.lookup_cons, hne]
   | _ => rfl
 
-/-- a counted loop whose body walks one element walks the whole array -/
-theorem loopN (ctx : Ctx) (body : Block) (f : Val → Option Bytes)
-    (hbody : ∀ v b1 r1 st1, f v = some b1 → st1.rest = b1 ++ r1 → ∃ st2, runBlock ctx body st1 = .ok st2 ∧ st2.rest = r1) :
+/-! ## reported fields -/
+
+/-- the fields reported between two states of a walk are, entry by entry, the prescribed ones (width; encoding of multi-byte fields) -/
+def TrOk (st st' : St) (tr : Trace) : Prop := ∃ tr', st'.trace = tr'.reverse ++ st.trace ∧ traceEq tr tr' = true
+
+theorem traceEq_append : ∀ (a a' b b' : Trace), traceEq a a' = true → traceEq b b' = true → traceEq (a ++ b) (a' ++ b') = true
+  | [], [], b, b', _, h2 => by simpa using h2
+  | [], _ :: _, _, _, h1, _ => by simp [traceEq] at h1
+  | _ :: _, [], _, _, h1, _ => by simp [traceEq] at h1
+  | x :: a, y :: a', b, b', h1, h2 => by
+    simp only [traceEq, Bool.and_eq_true] at h1
+    simp only [List.cons_append, traceEq, Bool.and_eq_true]
+    exact ⟨h1.1, traceEq_append a a' b b' h1.2 h2⟩
+
+theorem TrOk.nil (st st' : St) (h : st'.trace = st.trace) : TrOk st st' [] := ⟨[], by simpa using h, by simp [traceEq]⟩
+
+theorem TrOk.single (st st' : St) (n : Nat) (e e' : Enc) (h : st'.trace = (n, e') :: st.trace) (he : entryEq (n, e) (n, e') = true) :
+    TrOk st st' [(n, e)] := ⟨[(n, e')], by simp [h], by simp [traceEq, he]⟩
+
+theorem TrOk.append {st st1 st2 : St} {t1 t2 : Trace} (h1 : TrOk st st1 t1) (h2 : TrOk st1 st2 t2) : TrOk st st2 (t1 ++ t2) := by
+  obtain ⟨a, ha, hea⟩ := h1
+  obtain ⟨b, hb, heb⟩ := h2
+  exact ⟨a ++ b, by rw [hb, ha]; simp, traceEq_append t1 a t2 b hea heb⟩
+
+/-- a counted loop whose body walks one element walks the whole array and reports the elements' fields in order -/
+theorem loopN (ctx : Ctx) (body : Block) (f : Val → Option Bytes) (ft : Val → Option Trace)
+    (hbody : ∀ v b1 r1 st1, f v = some b1 → st1.rest = b1 ++ r1 →
+      ∃ st2 tr1, ft v = some tr1 ∧ runBlock ctx body st1 = .ok st2 ∧ st2.rest = r1 ∧ TrOk st1 st2 tr1) :
     ∀ (vs : List Val) (b r : Bytes) (st : St), iterEnc f vs = some b → st.rest = b ++ r →
-      ∃ st', iterN (runBlock ctx body) vs.length st = .ok st' ∧ st'.rest = r
+      ∃ st' tr, iterTr ft vs = some tr ∧ iterN (runBlock ctx body) vs.length st = .ok st' ∧ st'.rest = r ∧ TrOk st st' tr
   | [], b, r, st, h, hr => by
     simp [iterEnc] at h; subst h
-    exact ⟨st, rfl, by simpa using hr⟩
+    exact ⟨st, [], by simp [iterTr], rfl, by simpa using hr, TrOk.nil st st rfl⟩
   | v :: vs, b, r, st, h, hr => by
     simp only [iterEnc] at h
     cases h1 : f v with
@@ -437,18 +462,19 @@ theorem loopN (ctx : Ctx) (body : Block) (f : Val → Option Bytes)
       | some b2 =>
         simp only [h1, h2, Option.some.injEq] at h
         subst h
-        obtain ⟨st2, hrun, hrest⟩ := hbody v b1 (b2 ++ r) st h1 (by rw [hr, List.append_assoc])
-        obtain ⟨st3, hrun3, hrest3⟩ := loopN ctx body f hbody vs b2 r st2 h2 hrest
-        exact ⟨st3, by simp only [List.length_cons, iterN, hrun, hrun3], hrest3⟩
+        obtain ⟨st2, t1, hft, hrun, hrest, hto⟩ := hbody v b1 (b2 ++ r) st h1 (by rw [hr, List.append_assoc])
+        obtain ⟨st3, t2, hit, hrun3, hrest3, hto3⟩ := loopN ctx body f ft hbody vs b2 r st2 h2 hrest
+        exact ⟨st3, t1 ++ t2, by simp [iterTr, hft, hit], by simp only [List.length_cons, iterN, hrun, hrun3], hrest3, hto.append hto3⟩
 
 /-- an end-of-packet loop whose body walks one (non-empty) element walks the whole endless array and stops at the end -/
-theorem loopW (ctx : Ctx) (body : Block) (f : Val → Option Bytes)
-    (hbody : ∀ v b1 r1 st1, f v = some b1 → st1.rest = b1 ++ r1 → ∃ st2, runBlock ctx body st1 = .ok st2 ∧ st2.rest = r1) :
+theorem loopW (ctx : Ctx) (body : Block) (f : Val → Option Bytes) (ft : Val → Option Trace)
+    (hbody : ∀ v b1 r1 st1, f v = some b1 → st1.rest = b1 ++ r1 →
+      ∃ st2 tr1, ft v = some tr1 ∧ runBlock ctx body st1 = .ok st2 ∧ st2.rest = r1 ∧ TrOk st1 st2 tr1) :
     ∀ (vs : List Val) (b : Bytes) (st : St) (fuel : Nat), iterEnc1 f vs = some b → st.rest = b → b.length ≤ fuel →
-      ∃ st', iterWhile (runBlock ctx body) fuel st = .ok st' ∧ st'.rest = []
+      ∃ st' tr, iterTr ft vs = some tr ∧ iterWhile (runBlock ctx body) fuel st = .ok st' ∧ st'.rest = [] ∧ TrOk st st' tr
   | [], b, st, fuel, h, hr, _ => by
     simp [iterEnc1] at h; subst h
-    refine ⟨st, ?_, hr⟩
+    refine ⟨st, [], by simp [iterTr], ?_, hr, TrOk.nil st st rfl⟩
     unfold iterWhile
     simp [hr]
   | v :: vs, b, st, fuel, h, hr, hf => by
@@ -464,12 +490,12 @@ theorem loopW (ctx : Ctx) (body : Block) (f : Val → Option Bytes)
         | some b2 =>
           simp only [h1, h2, Option.some.injEq] at h
           subst h
-          obtain ⟨st2, hrun, hrest⟩ := hbody v (x :: b1) b2 st h1 hr
+          obtain ⟨st2, t1, hft, hrun, hrest, hto⟩ := hbody v (x :: b1) b2 st h1 hr
           cases fuel with
           | zero => simp at hf
           | succ fuel =>
-            obtain ⟨st3, hrun3, hrest3⟩ := loopW ctx body f hbody vs b2 st2 fuel h2 hrest (by simp at hf; omega)
-            refine ⟨st3, ?_, hrest3⟩
+            obtain ⟨st3, t2, hit, hrun3, hrest3, hto3⟩ := loopW ctx body f ft hbody vs b2 st2 fuel h2 hrest (by simp at hf; omega)
+            refine ⟨st3, t1 ++ t2, by simp [iterTr, hft, hit], ?_, hrest3, hto.append hto3⟩
             unfold iterWhile
             have hne : st.rest.isEmpty = false := by rw [hr]; rfl
             have hlt : st2.rest.length < st.rest.length := by rw [hrest, hr]; simp; omega
@@ -494,15 +520,16 @@ theorem agree_nil (env : Env) (wenv : List (Nat × Nat)) : Agree [] env wenv := 
 /-- one leaf field against one statement -/
 theorem walkLeaf_sound (ctx : Ctx) (L : List Nat) (id : Nat) (l : Leaf) (s : Stmt) (L' : List Nat) (hw : walkLeaf L id l s = some L')
     (env : Env) (v : Val) (b r : Bytes) (st : St) (he : encLeaf l v = some b) (hr : st.rest = b ++ r) (ha : Agree L env st.env) :
-    ∃ st', runStmt ctx s st = .ok st' ∧ st'.rest = r ∧ Agree L' (env.bind id v) st'.env ∧ Fr (boundS s) st st' := by
+    ∃ st', runStmt ctx s st = .ok st' ∧ st'.rest = r ∧ Agree L' (env.bind id v) st'.env ∧ Fr (boundS s) st st' ∧
+      TrOk st st' [(b.length, encOf l)] := by
   have hs : stmtOk l s = true := by
     unfold walkLeaf at hw
     split at hw
     · assumption
     · cases hw
-  obtain ⟨st', e', hrun, hrest, _, _⟩ := stmt_leaf ctx l s v b r st hs he hr
+  obtain ⟨st', e', hrun, hrest, htrace, hent⟩ := stmt_leaf ctx l s v b r st hs he hr
   have hfr := runStmt_fr ctx s st st' hrun
-  refine ⟨st', hrun, hrest, ?_, hfr⟩
+  refine ⟨st', hrun, hrest, ?_, hfr, TrOk.single st st' b.length (encOf l) e' htrace hent⟩
   have nonret : boundS s = [] → walkLeaf L id l s = some (drop1 L id) → Agree L' (env.bind id v) st'.env := by
     intro hb hw2
     rw [hw2] at hw
@@ -623,7 +650,8 @@ mutual
 theorem walkTy_sound (ctx : Ctx) : ∀ (t : Ty) (L : List Nat) (id : Nat) (p : Block) (L' B : List Nat) (q : Block),
     walkTy L id t p = some (L', B, q) → wfTy t = true →
     ∀ (env : Env) (v : Val) (b r : Bytes) (st : St), encTy t env v = some b → st.rest = b ++ r → Agree L env st.env →
-      ∃ st', runBlock ctx p st = runBlock ctx q st' ∧ st'.rest = r ∧ Agree L' (env.bind id v) st'.env ∧ Fr B st st'
+      ∃ st' tr, runBlock ctx p st = runBlock ctx q st' ∧ st'.rest = r ∧ Agree L' (env.bind id v) st'.env ∧ Fr B st st' ∧
+        trTy t env v = some tr ∧ TrOk st st' tr
   | .leaf l, L, id, p, L', B, q, hw, _, env, v, b, r, st, he, hr, ha => by
     simp only [walkTy] at hw
     cases p with
@@ -637,8 +665,8 @@ theorem walkTy_sound (ctx : Ctx) : ∀ (t : Ty) (L : List Nat) (id : Nat) (p : B
         obtain ⟨h1, h2, h3⟩ := hw
         subst h1; subst h2; subst h3
         simp only [encTy] at he
-        obtain ⟨st', hrun, hrest, hag, hfr⟩ := walkLeaf_sound ctx L id l s L1 hl env v b r st he hr ha
-        exact ⟨st', by simp only [runBlock, hrun], hrest, hag, hfr⟩
+        obtain ⟨st', hrun, hrest, hag, hfr, hto⟩ := walkLeaf_sound ctx L id l s L1 hl env v b r st he hr ha
+        exact ⟨st', [(b.length, encOf l)], by simp only [runBlock, hrun], hrest, hag, hfr, by simp [trTy, he], hto⟩
   | .struct ms, L, id, p, L', B, q, hw, hwf, env, v, b, r, st, he, hr, ha => by
     simp only [walkTy] at hw
     cases hm : walkMs [] ms p with
@@ -658,9 +686,9 @@ theorem walkTy_sound (ctx : Ctx) : ∀ (t : Ty) (L : List Nat) (id : Nat) (p : B
           obtain ⟨b', e'⟩ := y
           simp [hq] at he
           subst he
-          obtain ⟨st', hrun, hrest, _, hfr⟩ :=
+          obtain ⟨st', tr, hrun, hrest, _, hfr, htr, hto⟩ :=
             walkMs_sound ctx ms [] p L0 B0 q0 hm hwf.2 [] vs b' e' r st hq hr (Or.inl hwf.1) (agree_nil _ _)
-          refine ⟨st', hrun, hrest, ?_, hfr⟩
+          refine ⟨st', tr, hrun, hrest, ?_, hfr, by simp [trTy, htr], hto⟩
           intro u hu
           obtain ⟨huL, hnb⟩ := mem_dropAll L B0 u hu
           rw [hfr u hnb, ha u huL]; rfl
@@ -684,42 +712,43 @@ theorem walkTy_sound (ctx : Ctx) : ∀ (t : Ty) (L : List Nat) (id : Nat) (p : B
             simp only [walkFixedS] at hw
             split at hw
             · rename_i hc
-              simp only [Bool.and_eq_true, beq_iff_eq] at hc
-              obtain ⟨hnn, hel⟩ := hc
+              simp only [Bool.and_eq_true, beq_iff_eq, Bool.not_eq_true'] at hc
+              obtain ⟨⟨hnb, hnn⟩, hel⟩ := hc
               simp only [Option.some.injEq, Prod.mk.injEq] at hw
               obtain ⟨h1, h2, h3⟩ := hw
               subst h1; subst h2; subst h3
               obtain ⟨L0, B0, hel'⟩ := elemNil_eq _ hel
               have hbody : ∀ v1 b1 r1 st1, encTy t env v1 = some b1 → st1.rest = b1 ++ r1 →
-                  ∃ st2, runBlock ctx body st1 = .ok st2 ∧ st2.rest = r1 := by
+                  ∃ st2 tr1, trTy t env v1 = some tr1 ∧ runBlock ctx body st1 = .ok st2 ∧ st2.rest = r1 ∧ TrOk st1 st2 tr1 := by
                 intro v1 b1 r1 st1 h1 h2
-                obtain ⟨st2, hrun, hrest, _, _⟩ := walkTy_sound ctx t [] 0 body L0 B0 .nil hel' hwf env v1 b1 r1 st1 h1 h2 (agree_nil _ _)
-                exact ⟨st2, by rw [hrun]; simp [runBlock], hrest⟩
-              obtain ⟨st', hrun, hrest⟩ := loopN ctx body (encTy t env) hbody vs b r st he hr
+                obtain ⟨st2, tr1, hrun, hrest, _, _, htr, hto⟩ := walkTy_sound ctx t [] 0 body L0 B0 .nil hel' hwf env v1 b1 r1 st1 h1 h2 (agree_nil _ _)
+                exact ⟨st2, tr1, htr, by rw [hrun]; simp [runBlock], hrest, hto⟩
+              obtain ⟨st', tr, hit, hrun, hrest, hto⟩ := loopN ctx body (encTy t env) (trTy t env) hbody vs b r st he hr
               have hrs : runStmt ctx (.forc n' body) st = .ok st' := by
                 simp only [runStmt]; rw [hnn, ← hn]; exact hrun
               have hfr := runStmt_fr ctx _ st st' hrs
-              refine ⟨st', by simp only [runBlock, hrs], hrest, ?_, hfr⟩
+              refine ⟨st', tr, by simp only [runBlock, hrs], hrest, ?_, hfr, by simp [trTy, hnb, hit], hto⟩
               intro u hu
-              obtain ⟨huL, hnb⟩ := mem_dropAll L _ u hu
-              rw [hfr u (by simpa [boundS] using hnb), ha u huL]; rfl
+              obtain ⟨huL, hnb'⟩ := mem_dropAll L _ u hu
+              rw [hfr u (by simpa [boundS] using hnb'), ha u huL]; rfl
             · cases hw
           | add n' e =>
             simp only [walkFixedS] at hw
             split at hw
             · rename_i hc
               simp only [Bool.and_eq_true, beq_iff_eq] at hc
-              obtain ⟨hby, hnn⟩ := hc
+              obtain ⟨⟨hby, hnn⟩, hena⟩ := hc
               simp only [Option.some.injEq, Prod.mk.injEq] at hw
               obtain ⟨h1, h2, h3⟩ := hw
-              subst h1; subst h2; subst h3
+              subst h1; subst h2; subst h3; subst hena
               have hlen := bytes_len t env hby vs b he
-              have ht := take_exact n' e st b r hr (by rw [hlen, hn, hnn])
-              have hrs : runStmt ctx (.add n' e) st = .ok { st with rest := r, trace := (n', e) :: st.trace } := by
+              have ht := take_exact n' .na st b r hr (by rw [hlen, hn, hnn])
+              have hrs : runStmt ctx (.add n' .na) st = .ok { st with rest := r, trace := (n', .na) :: st.trace } := by
                 simp only [runStmt, ht]; rfl
-              refine ⟨{ st with rest := r, trace := (n', e) :: st.trace }, by simp only [runBlock, hrs], rfl, ?_, ?_⟩
+              refine ⟨{ st with rest := r, trace := (n', .na) :: st.trace }, [(vs.length, .na)], by simp only [runBlock, hrs], rfl, ?_, ?_, by simp [trTy, hby], ?_⟩
               · intro u hu; exact ha u hu
               · intro u _; rfl
+              · rw [hn, ← hnn]; exact TrOk.single _ _ n' .na .na rfl (by simp [entryEq])
             · cases hw
           | _ => simp [walkFixedS] at hw
       · cases he
@@ -743,46 +772,47 @@ theorem walkTy_sound (ctx : Ctx) : ∀ (t : Ty) (L : List Nat) (id : Nat) (p : B
             simp only [walkVarS] at hw
             split at hw
             · rename_i hc
-              simp only [Bool.and_eq_true, beq_iff_eq] at hc
-              obtain ⟨⟨hwv, hcont⟩, hel⟩ := hc
+              simp only [Bool.and_eq_true, beq_iff_eq, Bool.not_eq_true'] at hc
+              obtain ⟨⟨⟨hnb, hwv⟩, hcont⟩, hel⟩ := hc
               simp only [Option.some.injEq, Prod.mk.injEq] at hw
               obtain ⟨h1, h2, h3⟩ := hw
               subst h1; subst h2; subst h3
               obtain ⟨L0, B0, hel'⟩ := elemNil_eq _ hel
               have hbody : ∀ v1 b1 r1 st1, encTy t env v1 = some b1 → st1.rest = b1 ++ r1 →
-                  ∃ st2, runBlock ctx body st1 = .ok st2 ∧ st2.rest = r1 := by
+                  ∃ st2 tr1, trTy t env v1 = some tr1 ∧ runBlock ctx body st1 = .ok st2 ∧ st2.rest = r1 ∧ TrOk st1 st2 tr1 := by
                 intro v1 b1 r1 st1 h1 h2
-                obtain ⟨st2, hrun, hrest, _, _⟩ := walkTy_sound ctx t [] 0 body L0 B0 .nil hel' hwf env v1 b1 r1 st1 h1 h2 (agree_nil _ _)
-                exact ⟨st2, by rw [hrun]; simp [runBlock], hrest⟩
-              obtain ⟨st', hrun, hrest⟩ := loopN ctx body (encTy t env) hbody vs b r st he hr
+                obtain ⟨st2, tr1, hrun, hrest, _, _, htr, hto⟩ := walkTy_sound ctx t [] 0 body L0 B0 .nil hel' hwf env v1 b1 r1 st1 h1 h2 (agree_nil _ _)
+                exact ⟨st2, tr1, htr, by rw [hrun]; simp [runBlock], hrest, hto⟩
+              obtain ⟨st', tr, hit, hrun, hrest, hto⟩ := loopN ctx body (encTy t env) (trTy t env) hbody vs b r st he hr
               have hlk : st.env.lookup w = some vs.length := by
                 rw [hwv, ha var (mem_of_contains L var hcont)]; exact hget
               have hrs : runStmt ctx (.forv w body) st = .ok st' := by
                 simp only [runStmt, hlk]; exact hrun
               have hfr := runStmt_fr ctx _ st st' hrs
-              refine ⟨st', by simp only [runBlock, hrs], hrest, ?_, hfr⟩
+              refine ⟨st', tr, by simp only [runBlock, hrs], hrest, ?_, hfr, by simp [trTy, hnb, hit], hto⟩
               intro u hu
-              obtain ⟨huL, hnb⟩ := mem_dropAll L _ u hu
-              rw [hfr u (by simpa [boundS] using hnb), ha u huL]; rfl
+              obtain ⟨huL, hnb'⟩ := mem_dropAll L _ u hu
+              rw [hfr u (by simpa [boundS] using hnb'), ha u huL]; rfl
             · cases hw
           | addv w e =>
             simp only [walkVarS] at hw
             split at hw
             · rename_i hc
               simp only [Bool.and_eq_true, beq_iff_eq] at hc
-              obtain ⟨⟨hby, hwv⟩, hcont⟩ := hc
+              obtain ⟨⟨⟨hby, hwv⟩, hcont⟩, hena⟩ := hc
               simp only [Option.some.injEq, Prod.mk.injEq] at hw
               obtain ⟨h1, h2, h3⟩ := hw
-              subst h1; subst h2; subst h3
+              subst h1; subst h2; subst h3; subst hena
               have hlen := bytes_len t env hby vs b he
               have hlk : st.env.lookup w = some vs.length := by
                 rw [hwv, ha var (mem_of_contains L var hcont)]; exact hget
-              have ht := take_exact vs.length e st b r hr hlen
-              have hrs : runStmt ctx (.addv w e) st = .ok { st with rest := r, trace := (vs.length, e) :: st.trace } := by
+              have ht := take_exact vs.length .na st b r hr hlen
+              have hrs : runStmt ctx (.addv w .na) st = .ok { st with rest := r, trace := (vs.length, .na) :: st.trace } := by
                 simp only [runStmt, hlk, ht]; rfl
-              refine ⟨{ st with rest := r, trace := (vs.length, e) :: st.trace }, by simp only [runBlock, hrs], rfl, ?_, ?_⟩
+              refine ⟨{ st with rest := r, trace := (vs.length, .na) :: st.trace }, [(vs.length, .na)], by simp only [runBlock, hrs], rfl, ?_, ?_, by simp [trTy, hby], ?_⟩
               · intro u hu; exact ha u hu
               · intro u _; rfl
+              · exact TrOk.single _ _ vs.length .na .na rfl (by simp [entryEq])
             · cases hw
           | _ => simp [walkVarS] at hw
       · cases he
@@ -794,7 +824,8 @@ theorem walkM_sound (ctx : Ctx) : ∀ (m : Member) (L : List Nat) (p : Block) (L
     walkM L m p = some (L', B, q) → wfM m = true →
     ∀ (env : Env) (v : Val) (b : Bytes) (env' : Env) (r : Bytes) (st : St), encMember m env v = some (b, env') → st.rest = b ++ r →
       (tailFreeM m = true ∨ r = []) → Agree L env st.env →
-      ∃ st', runBlock ctx p st = runBlock ctx q st' ∧ st'.rest = r ∧ Agree L' env' st'.env ∧ Fr B st st'
+      ∃ st' tr, runBlock ctx p st = runBlock ctx q st' ∧ st'.rest = r ∧ Agree L' env' st'.env ∧ Fr B st st' ∧
+        trMember m env v = some (tr, env') ∧ TrOk st st' tr
   | .field id role t, L, p, L', B, q, hw, hwf, env, v, b, env', r, st, he, hr, _, ha => by
     simp only [walkM] at hw
     simp only [encMember] at he
@@ -806,7 +837,8 @@ theorem walkM_sound (ctx : Ctx) : ∀ (m : Member) (L : List Nat) (p : Block) (L
         obtain ⟨hb, henv⟩ := he
         subst hb; subst henv
         simp only [wfM] at hwf
-        exact walkTy_sound ctx t L id p L' B q hw hwf env v b1 r st ht hr ha
+        obtain ⟨st', tr, hrun, hrest, hag, hfr, htr, hto⟩ := walkTy_sound ctx t L id p L' B q hw hwf env v b1 r st ht hr ha
+        exact ⟨st', tr, hrun, hrest, hag, hfr, by simp [trMember, htr], hto⟩
     · cases he
   | .ifs var bs, L, p, L', B, q, hw, hwf, env, v, b, env', r, st, he, hr, htl, ha => by
     simp only [walkM] at hw
@@ -832,11 +864,11 @@ theorem walkM_sound (ctx : Ctx) : ∀ (m : Member) (L : List Nat) (p : Block) (L
             | some x =>
               simp only [hx] at he
               have hlk : st.env.lookup var = some x := by rw [ha var (mem_of_contains L var hcont)]; exact hx
-              obtain ⟨st', hrun, hrest⟩ := walkB_sound ctx bs L var arms hwb hwf x env vs b env' r st he hlk hr
+              obtain ⟨st', tr, hrun, hrest, htr, hto⟩ := walkB_sound ctx bs L var arms hwb hwf x env vs b env' r st he hlk hr
                 (by simpa [tailFreeM] using htl) ha
               have hrs : runStmt ctx (.ifs arms) st = .ok st' := by simp only [runStmt]; exact hrun
               have hfr := runStmt_fr ctx _ st st' hrs
-              refine ⟨st', by simp only [runBlock, hrs], hrest, ?_, hfr⟩
+              refine ⟨st', tr, by simp only [runBlock, hrs], hrest, ?_, hfr, by simp [trMember, hx, htr], hto⟩
               intro u hu
               obtain ⟨hu1, hnb⟩ := mem_dropAll _ _ u hu
               obtain ⟨huL, hni⟩ := mem_dropAll L _ u hu1
@@ -876,32 +908,39 @@ theorem walkM_sound (ctx : Ctx) : ∀ (m : Member) (L : List Nat) (p : Block) (L
             | whileNotEnd body =>
               simp only [walkEndS] at hw
               split at hw
-              · rename_i hel
+              · rename_i hc
+                simp only [Bool.and_eq_true, Bool.not_eq_true'] at hc
+                obtain ⟨hnb, hel⟩ := hc
                 simp only [Option.some.injEq, Prod.mk.injEq] at hw
                 obtain ⟨h1', h2', h3'⟩ := hw
                 subst h1'; subst h2'; subst h3'
                 obtain ⟨L0, B0, hel'⟩ := elemNil_eq _ hel
                 have hbody : ∀ v1 b1' r1 st1, encTy t env v1 = some b1' → st1.rest = b1' ++ r1 →
-                    ∃ st2, runBlock ctx body st1 = .ok st2 ∧ st2.rest = r1 := by
+                    ∃ st2 tr1, trTy t env v1 = some tr1 ∧ runBlock ctx body st1 = .ok st2 ∧ st2.rest = r1 ∧ TrOk st1 st2 tr1 := by
                   intro v1 b1' r1 st1 h1' h2'
-                  obtain ⟨st2, hrun, hrest, _, _⟩ := walkTy_sound ctx t [] 0 body L0 B0 .nil hel' hwf env v1 b1' r1 st1 h1' h2' (agree_nil _ _)
-                  exact ⟨st2, by rw [hrun]; simp [runBlock], hrest⟩
-                obtain ⟨st', hrun, hrest⟩ := loopW ctx body (encTy t env) hbody vs b1 st st.rest.length h1 hr (by rw [hr]; exact Nat.le_refl _)
+                  obtain ⟨st2, tr1, hrun, hrest, _, _, htr, hto⟩ := walkTy_sound ctx t [] 0 body L0 B0 .nil hel' hwf env v1 b1' r1 st1 h1' h2' (agree_nil _ _)
+                  exact ⟨st2, tr1, htr, by rw [hrun]; simp [runBlock], hrest, hto⟩
+                obtain ⟨st', tr, hit, hrun, hrest, hto⟩ := loopW ctx body (encTy t env) (trTy t env) hbody vs b1 st st.rest.length h1 hr (by rw [hr]; exact Nat.le_refl _)
                 have hrs : runStmt ctx (.whileNotEnd body) st = .ok st' := by simp only [runStmt]; exact hrun
                 have hfr := runStmt_fr ctx _ st st' hrs
-                exact ⟨st', by simp only [runBlock, hrs], hrest, agree_nil _ _, by simpa [boundS] using hfr⟩
+                exact ⟨st', tr, by simp only [runBlock, hrs], hrest, agree_nil _ _, by simpa [boundS] using hfr, by simp [trMember, hnb, hit], hto⟩
               · cases hw
             | addrest e =>
               simp only [walkEndS] at hw
               split at hw
-              · rename_i hby
+              · rename_i hc
+                simp only [Bool.and_eq_true, beq_iff_eq] at hc
+                obtain ⟨hby, hena⟩ := hc
                 simp only [Option.some.injEq, Prod.mk.injEq] at hw
                 obtain ⟨h1', h2', h3'⟩ := hw
-                subst h1'; subst h2'; subst h3'
-                have ht := take_exact st.rest.length e st b1 [] (by simpa using hr) (by rw [hr])
-                have hrs : runStmt ctx (.addrest e) st = .ok { st with rest := [], trace := (st.rest.length, e) :: st.trace } := by
+                subst h1'; subst h2'; subst h3'; subst hena
+                have hlen := bytes1_len t env hby vs b1 h1
+                have ht := take_exact st.rest.length .na st b1 [] (by simpa using hr) (by rw [hr])
+                have hrs : runStmt ctx (.addrest .na) st = .ok { st with rest := [], trace := (st.rest.length, .na) :: st.trace } := by
                   simp only [runStmt, ht]; rfl
-                exact ⟨{ st with rest := [], trace := (st.rest.length, e) :: st.trace }, by simp only [runBlock, hrs], rfl, agree_nil _ _, fun u _ => rfl⟩
+                refine ⟨{ st with rest := [], trace := (st.rest.length, .na) :: st.trace }, [(vs.length, .na)], by simp only [runBlock, hrs], rfl, agree_nil _ _, fun u _ => rfl, by simp [trMember, hby], ?_⟩
+                rw [← hlen, ← hr]
+                exact TrOk.single _ _ st.rest.length .na .na rfl (by simp [entryEq])
               · cases hw
             | _ => simp [walkEndS] at hw
     | nat _ => simp [encMember] at he
@@ -935,10 +974,10 @@ theorem walkM_sound (ctx : Ctx) : ∀ (m : Member) (L : List Nat) (p : Block) (L
             cases v with
             | none =>
               simp only [encMember, Option.some.injEq, Prod.mk.injEq] at he
-              obtain ⟨hb, _⟩ := he
-              subst hb
+              obtain ⟨hb, henv⟩ := he
+              subst hb; subst henv
               have hrs : runStmt ctx (.ifrest body) st = .ok st := by simp [runStmt, hr]
-              exact ⟨st, by simp only [runBlock, hrs], hr, agree_nil _ _, Fr.refl _ st⟩
+              exact ⟨st, [], by simp only [runBlock, hrs], hr, agree_nil _ _, Fr.refl _ st, by simp [trMember], TrOk.nil st st rfl⟩
             | tuple vs =>
               simp only [encMember] at he
               cases hm : encMembers ms env vs with
@@ -951,13 +990,13 @@ theorem walkM_sound (ctx : Ctx) : ∀ (m : Member) (L : List Nat) (p : Block) (L
                   simp only [hm, Option.some.injEq, Prod.mk.injEq] at he
                   obtain ⟨hb, henv⟩ := he
                   subst hb; subst henv
-                  obtain ⟨st', hrun, hrest, _, _⟩ :=
+                  obtain ⟨st', tr, hrun, hrest, _, _, htr, hto⟩ :=
                     walkMs_sound ctx ms L body L0 B0 .nil hel' hwf env vs (x :: b') e2 [] st hm (by simpa using hr) (Or.inr rfl) ha
                   have hne : st.rest.isEmpty = false := by rw [hr]; rfl
                   have hrs : runStmt ctx (.ifrest body) st = .ok st' := by
                     simp only [runStmt, hne, Bool.false_eq_true, if_false]; rw [hrun]; simp [runBlock]
                   have hfr := runStmt_fr ctx _ st st' hrs
-                  exact ⟨st', by simp only [runBlock, hrs], hrest, agree_nil _ _, by simpa [boundS] using hfr⟩
+                  exact ⟨st', tr, by simp only [runBlock, hrs], hrest, agree_nil _ _, by simpa [boundS] using hfr, by simp [trMember, htr], hto⟩
             | nat _ => simp [encMember] at he
             | bytes _ => simp [encMember] at he
             | list _ => simp [encMember] at he
@@ -966,7 +1005,7 @@ theorem walkM_sound (ctx : Ctx) : ∀ (m : Member) (L : List Nat) (p : Block) (L
 theorem walkB_sound (ctx : Ctx) : ∀ (bs : Branches) (L : List Nat) (var : Nat) (arms : Arms), walkB L var bs arms = true → wfB bs = true →
     ∀ (x : Nat) (env : Env) (vs : List Val) (b : Bytes) (env' : Env) (r : Bytes) (st : St), encBranches bs x env vs = some (b, env') →
       st.env.lookup var = some x → st.rest = b ++ r → (tailFreeB bs = true ∨ r = []) → Agree L env st.env →
-      ∃ st', runArms ctx arms st = .ok st' ∧ st'.rest = r
+      ∃ st' tr, runArms ctx arms st = .ok st' ∧ st'.rest = r ∧ trBranches bs x env vs = some (tr, env') ∧ TrOk st st' tr
   | .els ms, L, var, arms, hw, hwf, x, env, vs, b, env', r, st, he, hlk, hr, htl, ha => by
     cases arms with
     | els body =>
@@ -974,8 +1013,8 @@ theorem walkB_sound (ctx : Ctx) : ∀ (bs : Branches) (L : List Nat) (var : Nat)
       obtain ⟨L0, B0, hel'⟩ := elemNil_eq _ hw
       simp only [encBranches] at he
       simp only [wfB] at hwf
-      obtain ⟨st', hrun, hrest, _, _⟩ := walkMs_sound ctx ms L body L0 B0 .nil hel' hwf env vs b env' r st he hr (by simpa [tailFreeB] using htl) ha
-      exact ⟨st', by simp only [runArms]; rw [hrun]; simp [runBlock], hrest⟩
+      obtain ⟨st', tr, hrun, hrest, _, _, htr, hto⟩ := walkMs_sound ctx ms L body L0 B0 .nil hel' hwf env vs b env' r st he hr (by simpa [tailFreeB] using htl) ha
+      exact ⟨st', tr, by simp only [runArms]; rw [hrun]; simp [runBlock], hrest, by simp [trBranches, htr], hto⟩
     | cons _ _ _ => simp [walkB] at hw
   | .cons c ms bs, L, var, arms, hw, hwf, x, env, vs, b, env', r, st, he, hlk, hr, htl, ha => by
     cases arms with
@@ -993,25 +1032,26 @@ theorem walkB_sound (ctx : Ctx) : ∀ (bs : Branches) (L : List Nat) (var : Nat)
       by_cases hc : c.holds x = true
       · simp only [hc, if_true] at he
         obtain ⟨L0, B0, hel'⟩ := elemNil_eq _ hel
-        obtain ⟨st', hrun, hrest, _, _⟩ := walkMs_sound ctx ms L body L0 B0 .nil hel' hwf.1 env vs b env' r st he hr
+        obtain ⟨st', tr, hrun, hrest, _, _, htr, hto⟩ := walkMs_sound ctx ms L body L0 B0 .nil hel' hwf.1 env vs b env' r st he hr
           (htl'.imp (fun h => h.1) id) ha
-        exact ⟨st', by simp only [runArms, hh, hc]; rw [hrun]; simp [runBlock], hrest⟩
+        exact ⟨st', tr, by simp only [runArms, hh, hc]; rw [hrun]; simp [runBlock], hrest, by simp [trBranches, hc, htr], hto⟩
       · have hc' : c.holds x = false := by simpa using hc
         simp only [hc', Bool.false_eq_true, if_false] at he
-        obtain ⟨st', hrun, hrest⟩ := walkB_sound ctx bs L var rest hrestw hwf.2 x env vs b env' r st he hlk hr (htl'.imp (fun h => h.2) id) ha
-        exact ⟨st', by simp only [runArms, hh, hc']; exact hrun, hrest⟩
+        obtain ⟨st', tr, hrun, hrest, htr, hto⟩ := walkB_sound ctx bs L var rest hrestw hwf.2 x env vs b env' r st he hlk hr (htl'.imp (fun h => h.2) id) ha
+        exact ⟨st', tr, by simp only [runArms, hh, hc']; exact hrun, hrest, by simp [trBranches, hc', htr], hto⟩
 theorem walkMs_sound (ctx : Ctx) : ∀ (ms : Members) (L : List Nat) (p : Block) (L' B : List Nat) (q : Block),
     walkMs L ms p = some (L', B, q) → wfMs ms = true →
     ∀ (env : Env) (vs : List Val) (b : Bytes) (env' : Env) (r : Bytes) (st : St), encMembers ms env vs = some (b, env') → st.rest = b ++ r →
       (tailFree ms = true ∨ r = []) → Agree L env st.env →
-      ∃ st', runBlock ctx p st = runBlock ctx q st' ∧ st'.rest = r ∧ Agree L' env' st'.env ∧ Fr B st st'
+      ∃ st' tr, runBlock ctx p st = runBlock ctx q st' ∧ st'.rest = r ∧ Agree L' env' st'.env ∧ Fr B st st' ∧
+        trMembers ms env vs = some (tr, env') ∧ TrOk st st' tr
   | .nil, L, p, L', B, q, hw, _, env, vs, b, env', r, st, he, hr, _, ha => by
     simp only [walkMs, Option.some.injEq, Prod.mk.injEq] at hw
     obtain ⟨h1, h2, h3⟩ := hw
     subst h1; subst h2; subst h3
     obtain ⟨hv, hb, henv⟩ := encMembers_nil env vs b env' he
     subst hv; subst hb; subst henv
-    exact ⟨st, rfl, by simpa using hr, ha, Fr.refl _ st⟩
+    exact ⟨st, [], rfl, by simpa using hr, ha, Fr.refl _ st, by simp [trMembers], TrOk.nil st st rfl⟩
   | .cons m ms, L, p, L', B, q, hw, hwf, env, vs, b, env', r, st, he, hr, htl, ha => by
     simp only [walkMs] at hw
     cases h1 : walkM L m p with
@@ -1048,17 +1088,19 @@ theorem walkMs_sound (ctx : Ctx) : ∀ (ms : Members) (L : List Nat) (p : Block)
             cases htl with
             | inl h => left; simp only [tailFree, Bool.and_eq_true] at h; exact h.2
             | inr h => right; exact h
-          obtain ⟨st1, hrun1, hrest1, hag1, hfr1⟩ :=
+          obtain ⟨st1, t1, hrun1, hrest1, hag1, hfr1, htr1, hto1⟩ :=
             walkM_sound ctx m L p L1 B1 q1 h1 hwm env v b1 env1 (b2 ++ r) st he1 (by rw [hr, List.append_assoc]) htl1 ha
-          obtain ⟨st2, hrun2, hrest2, hag2, hfr2⟩ :=
+          obtain ⟨st2, t2, hrun2, hrest2, hag2, hfr2, htr2, hto2⟩ :=
             walkMs_sound ctx ms L1 q1 L2 B2 q2 h2 hwms env1 vs b2 env' r st1 he2 hrest1 htl2 hag1
-          exact ⟨st2, by rw [hrun1, hrun2], hrest2, hag2, hfr1.trans hfr2⟩
+          exact ⟨st2, t1 ++ t2, by rw [hrun1, hrun2], hrest2, hag2, hfr1.trans hfr2, by simp [trMembers, htr1, htr2], hto1.append hto2⟩
 end
 
 /-- **C17 for messages with arrays, conditionals, nested structs and optional tails, all values at once**: if the static matcher accepts
-(definition, dissector program), then for EVERY value the walk of its canonical encoding succeeds and ends exactly at the end of the body -/
-theorem walk_ends (ctx : Ctx) (c : Members) (p : Block) (hm : walkMatches c p = true) (hw : wfMs c = true) (vs : List Val) (b : Bytes)
-    (he : encode c vs = some b) : ∃ tr, run ctx p b = .ok (tr, []) := by
+(definition, dissector program), then for EVERY value the walk of its canonical encoding succeeds, reports exactly the fields the definition
+prescribes — in definition order, with the definition's widths and (for multi-byte fields) endianness, following the branches the value takes —
+and ends exactly at the end of the body -/
+theorem walk_full (ctx : Ctx) (c : Members) (p : Block) (hm : walkMatches c p = true) (hw : wfMs c = true) (vs : List Val) (b : Bytes)
+    (he : encode c vs = some b) : ∃ tr e tr', trMembers c [] vs = some (tr, e) ∧ run ctx p b = .ok (tr', []) ∧ traceEq tr tr' = true := by
   unfold encode at he
   cases hq : encMembers c [] vs with
   | none => simp [hq] at he
@@ -1067,21 +1109,32 @@ theorem walk_ends (ctx : Ctx) (c : Members) (p : Block) (hm : walkMatches c p = 
     simp [hq] at he
     subst he
     obtain ⟨L0, B0, hel⟩ := elemNil_eq _ hm
-    obtain ⟨st', hrun, hrest, _, _⟩ := walkMs_sound ctx c [] p L0 B0 .nil hel hw [] vs b' env' [] { rest := b' } hq (by simp) (Or.inr rfl) (agree_nil _ _)
-    refine ⟨st'.trace.reverse, ?_⟩
+    obtain ⟨st', tr, hrun, hrest, _, _, htr, tr', htrace, heq⟩ :=
+      walkMs_sound ctx c [] p L0 B0 .nil hel hw [] vs b' env' [] { rest := b' } hq (by simp) (Or.inr rfl) (agree_nil _ _)
+    refine ⟨tr, env', tr', htr, ?_, heq⟩
     simp only [run]
     rw [hrun]
-    simp [runBlock, hrest]
+    simp only [List.append_nil] at htrace
+    simp [runBlock, hrest, htrace]
 
+theorem walk_ends (ctx : Ctx) (c : Members) (p : Block) (hm : walkMatches c p = true) (hw : wfMs c = true) (vs : List Val) (b : Bytes)
+    (he : encode c vs = some b) : ∃ tr, run ctx p b = .ok (tr, []) := by
+  obtain ⟨_, _, tr', _, hrun, _⟩ := walk_full ctx c p hm hw vs b he
+  exact ⟨tr', hrun⟩
 
 /-- the same for direction-wrapped cases (`if (SERVER_TO_CLIENT) { … } else { … }`), in the direction `ctx` -/
-theorem walk_ends_dir (ctx : Ctx) (c : Members) (p : Block) (hm : walkMatches c (dirBody ctx p) = true) (hw : wfMs c = true) (vs : List Val) (b : Bytes)
-    (he : encode c vs = some b) : ∃ tr, run ctx p b = .ok (tr, []) := by
-  obtain ⟨tr, hrun⟩ := walk_ends ctx c (dirBody ctx p) hm hw vs b he
-  refine ⟨tr, ?_⟩
+theorem walk_full_dir (ctx : Ctx) (c : Members) (p : Block) (hm : walkMatches c (dirBody ctx p) = true) (hw : wfMs c = true) (vs : List Val) (b : Bytes)
+    (he : encode c vs = some b) : ∃ tr e tr', trMembers c [] vs = some (tr, e) ∧ run ctx p b = .ok (tr', []) ∧ traceEq tr tr' = true := by
+  obtain ⟨tr, e, tr', htr, hrun, heq⟩ := walk_full ctx c (dirBody ctx p) hm hw vs b he
+  refine ⟨tr, e, tr', htr, ?_, heq⟩
   unfold run at *
   rw [runBlock_dirBody ctx p]
   exact hrun
+
+theorem walk_ends_dir (ctx : Ctx) (c : Members) (p : Block) (hm : walkMatches c (dirBody ctx p) = true) (hw : wfMs c = true) (vs : List Val) (b : Bytes)
+    (he : encode c vs = some b) : ∃ tr, run ctx p b = .ok (tr, []) := by
+  obtain ⟨_, _, tr', _, hrun, _⟩ := walk_full_dir ctx c p hm hw vs b he
+  exact ⟨tr', hrun⟩
 
 /-! login cases sit inside a `switch (protocol_version)`: the arm of the version in `ctx` -/
 def selCase (v : Nat) : Cases → Option Block
@@ -1117,13 +1170,19 @@ theorem runBlock_verBody (ctx : Ctx) (p : Block) (st : St) : runBlock ctx p st =
   · rfl
 
 /-- … for a login case: the arm of the protocol version, then the arm of the direction -/
-theorem walk_ends_login (ctx : Ctx) (c : Members) (p : Block) (hm : walkMatches c (dirBody ctx (verBody ctx p)) = true) (hw : wfMs c = true)
-    (vs : List Val) (b : Bytes) (he : encode c vs = some b) : ∃ tr, run ctx p b = .ok (tr, []) := by
-  obtain ⟨tr, hrun⟩ := walk_ends_dir ctx c (verBody ctx p) hm hw vs b he
-  refine ⟨tr, ?_⟩
+theorem walk_full_login (ctx : Ctx) (c : Members) (p : Block) (hm : walkMatches c (dirBody ctx (verBody ctx p)) = true) (hw : wfMs c = true)
+    (vs : List Val) (b : Bytes) (he : encode c vs = some b) :
+    ∃ tr e tr', trMembers c [] vs = some (tr, e) ∧ run ctx p b = .ok (tr', []) ∧ traceEq tr tr' = true := by
+  obtain ⟨tr, e, tr', htr, hrun, heq⟩ := walk_full_dir ctx c (verBody ctx p) hm hw vs b he
+  refine ⟨tr, e, tr', htr, ?_, heq⟩
   unfold run at *
   rw [runBlock_verBody ctx p]
   exact hrun
+
+theorem walk_ends_login (ctx : Ctx) (c : Members) (p : Block) (hm : walkMatches c (dirBody ctx (verBody ctx p)) = true) (hw : wfMs c = true)
+    (vs : List Val) (b : Bytes) (he : encode c vs = some b) : ∃ tr, run ctx p b = .ok (tr, []) := by
+  obtain ⟨_, _, tr', _, hrun, _⟩ := walk_full_login ctx c p hm hw vs b he
+  exact ⟨tr', hrun⟩
 
 /-- non-vacuity: `u8 n; struct { u16 a; CString s; }[n] xs; u8 kind; if (kind == 1) { u32 x; } else { u8 y; }  u8[-] rest;` against its program -/
 example :
@@ -1157,3 +1216,9 @@ open WowVerif.Wireshark in
 #print axioms walk_ends_dir
 open WowVerif.Wireshark in
 #print axioms walk_ends_login
+open WowVerif.Wireshark in
+#print axioms walk_full
+open WowVerif.Wireshark in
+#print axioms walk_full_dir
+open WowVerif.Wireshark in
+#print axioms walk_full_login
